@@ -259,7 +259,7 @@ pub fn run(ctx: &mut LaneCtx) {
         SubSpec {
             name: "live-filter",
             cases: (960, 20_000),
-            rule: "1..43 threads on custom stacks of 1..8 pages - three threads in a hundred on a deep stack of 1..2 MiB whose only reference may lie more than a megabyte above the stack pointer - (with or without a size limit that shortens the stacks of threads at position >= 20 to the 2 KiB chunk holding sp) with planted words (pointer into the principal mapping / another mapping / one past its end / own stack / small ints, at aligned slots above sp, below sp, or unaligned), spinners running inside an executable mapping, principal address inside a mapping or in a hole, crash context on a chosen thread with rip inside/outside; oracle = stack present iff rip inside or aligned word at/above sp points into the mapping, records+contexts always present, soft error as stated; non-trivial = at least one included and one excluded stack in the same dump; distinct = hash of case",
+            rule: "1..43 threads on custom stacks of 1..8 pages - three threads in a hundred on a deep stack of 1..2 MiB whose only reference may lie more than a megabyte above the stack pointer - (with or without a size limit that shortens the stacks of threads at position >= 20 to the 2 KiB chunk holding sp) with planted words (pointer into the principal mapping / another mapping / one past its end / own stack / small ints, at aligned slots above sp, below sp, or unaligned), spinners running inside an executable mapping, principal address inside a mapping or in a hole (in some cases the mapping is unmapped by the target between two requests of the same writer and the second request is judged), crash context on a chosen thread with rip inside/outside; oracle = stack present iff rip inside or aligned word at/above sp points into the mapping, records+contexts always present, soft error as stated; non-trivial = at least one included and one excluded stack in the same dump; distinct = hash of case",
             strategy: crate::props::planted::case_strategy(None, Some(true), None)
                 .prop_map(|mut c| {
                     if c.principal.is_none() {
